@@ -1496,13 +1496,21 @@ class PyCdlib:
         Returns:
          Nothing.
         """
+        # The Primary Volume Descriptor lives at extent 16 and El Torito
+        # requires its Boot Record at extent 17, so any duplicate PVDs come
+        # after the Boot Records.
         current_extent = 16
-        for pvd in self.pvds:
-            pvd.set_extent_location(current_extent)
-            current_extent += 1
+        self.pvd.set_extent_location(current_extent)
+        current_extent += 1
 
         for br in self.brs:
             br.set_extent_location(current_extent)
+            current_extent += 1
+
+        for pvd in self.pvds:
+            if pvd is self.pvd:
+                continue
+            pvd.set_extent_location(current_extent)
             current_extent += 1
 
         for svd in self.svds:
@@ -2816,6 +2824,7 @@ class PyCdlib:
 
         # First write out the PVDs.
         for pvd in self.pvds:
+            outfp.seek(pvd.extent_location() * self.logical_block_size)
             rec = pvd.record()
             self._outfp_write_with_check(outfp, rec)
             progress.call(len(rec))
